@@ -214,14 +214,20 @@ def has_collision(tree, gid):
     return False
 
 
+# (the last three are products of two or three primes beyond the 100-prime trial-division table,
+#  so mag<N> has to factor them with Pollard's rho and still deliver the canonical base order)
 SCALES = [(Fraction(3), "* au::mag<3>()"), (Fraction(1, 7), "/ au::mag<7>()"), (Fraction(1000), "* au::mag<1000>()"),
-          (Fraction(5, 9), "* au::mag<5>() / au::mag<9>()"), (Fraction(2 ** 31 - 1), "* au::mag<2147483647>()")]
+          (Fraction(5, 9), "* au::mag<5>() / au::mag<9>()"), (Fraction(2 ** 31 - 1), "* au::mag<2147483647>()"),
+          (Fraction(547 * 557), "* au::mag<304679>()"), (Fraction(1, 1009 * 1013), "/ au::mag<1022117>()"),
+          (Fraction(1000003 * 1000033, 7), "* au::mag<1000036000099ULL>() / au::mag<7>()")]
 
 
 ONES = ["* au::mag<1>()", "/ au::mag<1>()", "* (au::mag<6>() / au::mag<6>())", "* au::pow<0>(au::mag<10>())",
         "* (au::mag<5>() * au::pow<-1>(au::mag<5>()))"]
 RECIP = {Fraction(3): "/ au::mag<3>()", Fraction(1, 7): "* au::mag<7>()", Fraction(1000): "/ au::mag<1000>()",
-         Fraction(5, 9): "* au::mag<9>() / au::mag<5>()", Fraction(2 ** 31 - 1): "/ au::mag<2147483647>()"}
+         Fraction(5, 9): "* au::mag<9>() / au::mag<5>()", Fraction(2 ** 31 - 1): "/ au::mag<2147483647>()",
+         Fraction(547 * 557): "/ au::mag<304679>()", Fraction(1, 1009 * 1013): "* au::mag<1022117>()",
+         Fraction(1000003 * 1000033, 7): "* au::mag<7>() / au::mag<1000036000099ULL>()"}
 
 
 def random_tree(rnd, units, prefixes, depth, allow=("mul", "div", "pow", "root", "scale", "prefix")):
